@@ -1,7 +1,7 @@
 import CanvasProofs.Lemmas.C19State
 import CanvasProofs.Lemmas.C19Ops
 import CanvasProofs.Lemmas.C19Geom
-import CanvasProofs.C07
+import CanvasProofs.Lemmas.C19Cascade
 import Mathlib.Tactic.Ring
 import Mathlib.Tactic.FieldSimp
 import Mathlib.Tactic.Linarith
@@ -114,7 +114,7 @@ theorem style_attribute_wins (p : P α) (attrs : List (Attr α)) (c : RGBA) :
   unfold setStyling
   simp only []
   rw [List.foldl_append]
-  simp [applyStyle, setProps, setAttribute]
+  simp [applyStyle, setProps, setAttribute, attrCore, withSty, sty, attrCore, withSty, sty]
 
 /-- the selector's subject must be the element itself: a rule that applies to the stack `e :: es`
 (innermost first) has a selector whose last compound matches `e` (fcebf43) -/
@@ -127,6 +127,76 @@ theorem rule_subject_matches (r : Rule α) (e : Elem) (es : List Elem) (h : rule
   cases hl : s.getLast? with
   | none => simp [hl] at hm
   | some n => exact ⟨n, rfl, by simpa [hl] using hm⟩
+
+/-! ### the cascade and inheritance as pure functions (CanvasModel/C19/Spec.lean) -/
+
+/-- **styling_is_cascade**: for every state and attribute list, `setStyling` changes nothing but style/view,
+importer state and error flag, and computes them as the pure function `cascade` of the inherited
+values and the element's own declarations: presentation attributes in order, then the matching rules
+in order of appearance, then the style attribute -/
+theorem styling_is_cascade (p : P α) (attrs : List (Attr α)) :
+    setStyling o p attrs = withSty p (cascade o p.diagonal p.rules p.elems (sty p) attrs) :=
+  setStyling_eq_cascade o p attrs
+
+/-- **walk_eq_render**: for EVERY tree the stack machine (push at the start tag, pop at the end tag) computes
+exactly the environment-passing specification `render`, in which every child subtree receives the same
+inherited environment as argument and only rules, layers, path lengths and the error flag are threaded
+in document order; the caller's environment is untouched -/
+theorem walk_eq_render (t : Canvas.C19.Tree α) (p : P α) :
+    walk o t p = mkP (inhOf p) (render o t (inhOf p) (thrOf p)) := by
+  have := walk_eq_render_aux o t (inhOf p) (thrOf p)
+  rwa [mkP_inh_thr] at this
+
+/-- **sibling_isolation**: what a subtree `t2` paints after an arbitrary preceding sibling `t1` is what it
+paints from the ORIGINAL environment, given only the threaded outputs of `t1`: the first sibling cannot
+leak style, view, importer state, stacks or dimensions into the second -/
+theorem sibling_isolation (t1 t2 : Canvas.C19.Tree α) (p : P α) :
+    walk o t2 (walk o t1 p) = mkP (inhOf p) (render o t2 (inhOf p) (render o t1 (inhOf p) (thrOf p))) := by
+  rw [walk_eq_render o t1 p, walk_eq_render_aux]
+
+/-- **child_style**: the style with which a child element `<tag attrs>` of an element is drawn is
+`cascade(inherited, own declarations)`, where "inherited" is the parent's environment `i` (its computed
+style, view and importer state), whatever was drawn before (the threaded `t` contributes only the rules
+seen so far and the error flag) -/
+theorem child_style (i : Inh α) (t : Thr α) (tag : String) (attrs : List (Attr α)) :
+    sty (setStyling o (push (mkP i t) tag attrs) attrs) =
+      cascade o i.diagonal t.rules (elemOf tag attrs :: i.elems) ⟨i.ctx, i.st, t.err⟩ attrs := by
+  rw [styling_is_cascade]; rfl
+
+/-- and the environment the grandchildren inherit is that computed style (drawing the shape changes none of it) -/
+theorem children_inherit_computed (i : Inh α) (t : Thr α) (tag : String) (attrs : List (Attr α)) :
+    (inhOf (enter o i t tag attrs)).ctx =
+      (cascade o i.diagonal t.rules (elemOf tag attrs :: i.elems) ⟨i.ctx, i.st, t.err⟩ attrs).ctx ∧
+    (inhOf (enter o i t tag attrs)).st =
+      (cascade o i.diagonal t.rules (elemOf tag attrs :: i.elems) ⟨i.ctx, i.st, t.err⟩ attrs).st := by
+  have h := inner_drawShape o (setStyling o (push (mkP i t) tag attrs) attrs) tag attrs
+  have hc := child_style o i t tag attrs
+  constructor
+  · have := congrArg Inner.ctx h
+    simp only [inner] at this
+    show (enter o i t tag attrs).ctx = _
+    unfold enter; rw [this, ← hc]; rfl
+  · have := congrArg Inner.st h
+    simp only [inner] at this
+    show (enter o i t tag attrs).st = _
+    unfold enter; rw [this, ← hc]; rfl
+
+/-- SVG 1.1 §6.4 / CSS2 §6.4.3: the importer's cascade is the specification cascade (rules by specificity, then
+by order of appearance) -/
+def cascade_refines_spec_statement : Prop :=
+  ∀ (diag : α) (rules : List (Rule α)) (elems : List Elem) (s : Sty α) (attrs : List (Attr α)),
+    cascade o diag rules elems s attrs = specCascade o diag rules elems s attrs
+
+/-- **cascade_refines_spec** (partial: known finding C19-css-specificity): whenever the rules that apply to the
+element already stand in non-decreasing order of specificity in the style sheet, the importer's cascade
+(presentation attributes < matching rules in order of appearance < style attribute) is the cascade of
+SVG 1.1 / CSS2 (… < matching rules by specificity, then order < …) — for every element stack, rule list
+and declaration list -/
+theorem cascade_refines_spec_partial (diag : α) (rules : List (Rule α)) (elems : List Elem) (s : Sty α)
+    (attrs : List (Attr α)) (h : (matching rules elems).Pairwise (fun a b => a.1 ≤ b.1)) :
+    cascade o diag rules elems s attrs = specCascade o diag rules elems s attrs := by
+  unfold cascade specCascade
+  rw [rulesCore_eq_matching, stableSort_sorted (fun nr : Nat × Rule α => nr.1) _ h]
 
 end Generic
 
@@ -153,15 +223,43 @@ the transformations are applied as if nested, right to left on the coordinates) 
 theorem transform_list (a b : List (String × List K)) (p : Pt K) :
     Matrix.Dot (parseTransform (opsK cd) (a ++ b)).1 p =
       Matrix.Dot (parseTransform (opsK cd) a).1 (Matrix.Dot (parseTransform (opsK cd) b).1 p) := by
-  rw [transform_append, C07.dot_mul]
+  rw [transform_append, M.dot_mul]
+
+/-- **transform_product**: the matrix of a transform list is the ordered product (C07 `Matrix.Mul`) of the
+matrices of its functions, starting from the identity — for lists of any length over all six kinds with
+their optional arguments (`fnMatrix`, see `transform_functions`); functions with a wrong number of
+arguments and unknown names contribute the identity -/
+theorem transform_product (l : List (String × List K)) :
+    (parseTransform (opsK cd) l).1 = (l.map (fnMatrix cd)).foldl Matrix.Mul identK :=
+  (transform_product_aux cd l identK false).1
+
+/-- **transform_error**: a transform list is in error exactly when one of its functions has a number of
+arguments outside the table matrix 6, translate 1|2, scale 1|2, rotate 1|3, skewX 1, skewY 1 -/
+theorem transform_error (l : List (String × List K)) :
+    (parseTransform (opsK cd) l).2 = l.any badArity := by
+  have := (transform_product_aux cd l identK false).2
+  simp only [Bool.false_or] at this
+  exact this
+
+/-- the argument defaults: translate(tx) = translate(tx, 0), scale(s) = scale(s, s),
+rotate(a, cx, cy) = translate(cx, cy) rotate(a) translate(-cx, -cy) -/
+theorem transform_defaults (a tx sx cx cy : K) :
+    fnMatrix cd ("translate", [tx]) = fnMatrix cd ("translate", [tx, 0]) ∧
+    fnMatrix cd ("scale", [sx]) = fnMatrix cd ("scale", [sx, sx]) ∧
+    fnMatrix cd ("rotate", [a, cx, cy]) =
+      Matrix.Mul (Matrix.Mul (fnMatrix cd ("translate", [cx, cy])) (fnMatrix cd ("rotate", [a])))
+        (fnMatrix cd ("translate", [-cx, -cy])) := by
+  refine ⟨rfl, rfl, ?_⟩
+  simp only [fnMatrix, xformStep, identK, opsK, arithK, rotate, Matrix.Translate, Matrix.Mul]
+  congr 1 <;> ring
 
 /-- the transform attribute is composed onto the inherited view: a point is first transformed by the
 element's own list, then by everything inherited -/
 theorem transform_nests (q : P K) (l : List (String × List K)) (pt : Pt K) :
     Matrix.Dot (setAttribute (opsK cd) q "transform" (.xform l)).ctx.view pt =
       Matrix.Dot q.ctx.view (Matrix.Dot (parseTransform (opsK cd) l).1 pt) := by
-  simp only [setAttribute]
-  exact C07.dot_mul _ _ _
+  simp only [setAttribute, attrCore, withSty, sty, attrCore, withSty, sty]
+  exact M.dot_mul _ _ _
 
 /-- each supported function acts on user coordinates as SVG 1.1 §7.6 defines it; `matrix(a b c d e f)`
 is x' = a x + c y + e, y' = b x + d y + f; `rotate` uses (sin, cos) of the angle in degrees;
@@ -203,6 +301,41 @@ theorem viewbox_maps (w h x y W H : K) (e : Bool) (lens : List K) (hW : 0 < W) (
   simp only [canvasMatrix, init, defaultCtx, opsK, arithK, identK, hW, hH, decide_true, Bool.and_self, if_true,
     Matrix.Translate, Matrix.Scale, Matrix.ReflectYAbout, Matrix.Mul, Matrix.Dot]
   refine ⟨?_, ?_, ?_, ?_⟩ <;> congr 1 <;> field_simp <;> ring
+
+/-- SVG 1.1 §7.8, default preserveAspectRatio = xMidYMid meet: one scale factor s = min(w/W, h/H), the viewBox
+centred in the viewport; the point (x+u, y+v) of the viewBox lands at ((w - sW)/2 + s u, h - ((h - sH)/2 + s v)) -/
+def aspect_meet_statement : Prop :=
+  ∀ (w h x y W H u v : K) (e : Bool) (lens : List K), 0 < W → 0 < H → 0 < w → 0 < h →
+    Matrix.Dot (canvasMatrix (init (opsK cd) w h (x, y, W, H) e lens)) ⟨x + u, y + v⟩ =
+      ⟨(w - min (w / W) (h / H) * W) / 2 + min (w / W) (h / H) * u,
+       h - ((h - min (w / W) (h / H) * H) / 2 + min (w / W) (h / H) * v)⟩
+
+/-- **aspect** (partial: known finding C19-aspect-ratio): when the viewBox has the aspect ratio of the viewport
+(w/W = h/H) the view is the uniform scale of xMidYMid meet -/
+theorem aspect_meet_partial (w h x y W H u v : K) (e : Bool) (lens : List K) (hW : 0 < W) (hH : 0 < H)
+    (hsame : w / W = h / H) :
+    Matrix.Dot (canvasMatrix (init (opsK cd) w h (x, y, W, H) e lens)) ⟨x + u, y + v⟩ =
+      ⟨(w - min (w / W) (h / H) * W) / 2 + min (w / W) (h / H) * u,
+       h - ((h - min (w / W) (h / H) * H) / 2 + min (w / W) (h / H) * v)⟩ := by
+  have W0 : W ≠ 0 := ne_of_gt hW
+  have H0 : H ≠ 0 := ne_of_gt hH
+  rw [← hsame, min_self]
+  have hh : h = w / W * H := by rw [hsame]; field_simp
+  simp only [canvasMatrix, init, defaultCtx, opsK, arithK, identK, hW, hH, decide_true, Bool.and_self, if_true,
+    Matrix.Translate, Matrix.Scale, Matrix.ReflectYAbout, Matrix.Mul, Matrix.Dot]
+  congr 1
+  · field_simp; ring
+  · rw [hh]; field_simp; ring
+
+/-- witness (known finding C19-aspect-ratio): a 200 x 100 viewport with viewBox 0 0 100 100 — the corner (100,100)
+of the viewBox lands on the canvas corner (200, 0) instead of (150, 0): the drawing is stretched -/
+theorem aspect_ignored_defect : ¬ aspect_meet_statement (K := K) cd := by
+  intro hst
+  have h := hst 200 100 0 0 100 100 100 100 false [] (by norm_num) (by norm_num) (by norm_num) (by norm_num)
+  simp only [canvasMatrix, init, defaultCtx, opsK, arithK, identK,
+    Matrix.Translate, Matrix.Scale, Matrix.ReflectYAbout, Matrix.Mul, Matrix.Dot] at h
+  have hx := congrArg Pt.x h
+  norm_num at hx
 
 /-! ### units (SVG 1.1 §7.10, CSS absolute units at 96 px per inch) -/
 
@@ -398,7 +531,7 @@ theorem dash_units (q : P K) (d : List (PCmd K)) (hf : hasFill q.ctx = true) (hw
 theorem dasharray_stored (q : P K) (ds : List K) :
     (setAttribute (opsK cd) q "stroke-dasharray" (.nums ds)).ctx.dashes = ds ∧
     (setAttribute (opsK cd) q "stroke-dasharray" (.nums ds)).ctx.sw = q.ctx.sw := by
-  simp [setAttribute]
+  simp [setAttribute, attrCore, withSty, sty, attrCore, withSty, sty]
 
 /-! ### a whole document against SVG 1.1 -/
 
@@ -422,7 +555,7 @@ theorem refines_spec_rect (x0 y0 W H tx ty x y w h : K) (c : RGBA) (hc : c.a ≠
   intro p
   have hp : p = parseSVG (opsK cd) ⟨none, none, some (x0, y0, W, H)⟩ [] (rectDoc tx ty x y w h c) lens := rfl
   simp [parseSVG, parseViewBox, init, rectDoc, walk, walkList, push, pop, setStyling, applyRules, applyPlain, applyStyle,
-    setAttribute, drawShape, drawShapeCore, dimAttr, lookup, parseDimension, drawPath, hasFill, hasStroke, parseTransform,
+    setAttribute, attrCore, withSty, sty, drawShape, drawShapeCore, dimAttr, lookup, parseDimension, drawPath, hasFill, hasStroke, parseTransform,
     xformStep, defaultCtx, opsK, arithK, hW, hH, hc, transparent, black] at hp
   have W0 : W ≠ 0 := ne_of_gt hW
   have H0 : H ≠ 0 := ne_of_gt hH
@@ -441,14 +574,14 @@ variable {α : Type} (o : Ops α)
 /-- stroke-miterlimit reaches a miter joiner that is in use (5728eb2) -/
 theorem miterlimit_sets_join (q : P α) (n l : α) (h : q.ctx.join = .miter l) :
     (setAttribute o q "stroke-miterlimit" (.dim n "")).ctx.join = .miter n := by
-  simp [setAttribute, parseDimension, h]
+  simp [setAttribute, attrCore, withSty, sty, parseDimension, h]
 
 /-- fill-rule is imported and recorded with the layer (03856b4) -/
 theorem fill_rule_set (q : P α) (x y : α) (path : RPath α) (hf : hasFill q.ctx = true) :
     (setAttribute o q "fill-rule" (.kw "evenodd")).ctx.evenOdd = true ∧
     (setAttribute o q "fill-rule" (.kw "nonzero")).ctx.evenOdd = false ∧
     ∀ L, (drawPath o q x y path).layers = L :: q.layers → L.evenOdd = q.ctx.evenOdd := by
-  refine ⟨by simp [setAttribute], by simp [setAttribute], ?_⟩
+  refine ⟨by simp [setAttribute, attrCore, withSty, sty, attrCore, withSty, sty], by simp [setAttribute, attrCore, withSty, sty, attrCore, withSty, sty], ?_⟩
   intro L hL
   simp only [drawPath, hf, Bool.not_true, Bool.false_and] at hL
   have := (List.cons.inj hL).1
@@ -458,9 +591,9 @@ theorem fill_rule_set (q : P α) (x y : α) (path : RPath α) (hf : hasFill q.ct
 the selector's subject is the element itself (fcebf43) -/
 theorem selector_subject_is_element (props : List (String × Val α)) :
     ruleApplies (⟨[[⟨false, "", [⟨2, "class", "anc"⟩]⟩]], props⟩ : Rule α)
-      [⟨"rect", [], "", []⟩, ⟨"g", ["class"], "", ["inn"]⟩, ⟨"g", ["class"], "", ["anc"]⟩, ⟨"svg", [], "", []⟩] = false ∧
+      [⟨"rect", [], [], []⟩, ⟨"g", ["class"], [("class", "inn")], [("class", ["inn"])]⟩, ⟨"g", ["class"], [("class", "anc")], [("class", ["anc"])]⟩, ⟨"svg", [], [], []⟩] = false ∧
     ruleApplies (⟨[[⟨false, "", [⟨2, "class", "anc"⟩]⟩]], props⟩ : Rule α)
-      [⟨"g", ["class"], "", ["anc"]⟩, ⟨"svg", [], "", []⟩] = true := by
+      [⟨"g", ["class"], [("class", "anc")], [("class", ["anc"])]⟩, ⟨"svg", [], [], []⟩] = true := by
   constructor <;>
     simp [ruleApplies, selApplies, attempt, scan, scanList, SelNode.applies, AttrSel.applies]
 
@@ -469,22 +602,22 @@ theorem selector_subject_is_element (props : List (String × Val α)) :
 beats the rule, wherever it stands among the attributes -/
 theorem rule_beats_attribute (q : P α) (red blue lime : RGBA)
     (hr : q.rules = [⟨[[⟨false, "", [⟨2, "class", "a"⟩]⟩]], [("fill", .color blue)]⟩])
-    (he : q.elems = [⟨"rect", ["class"], "", ["a"]⟩]) :
+    (he : q.elems = [⟨"rect", ["class"], [("class", "a")], [("class", ["a"])]⟩]) :
     (setStyling o q []).ctx.fill = blue ∧ (setStyling o q [.plain "fill" (.color red)]).ctx.fill = blue := by
   have h1 : ∀ p : P α, (setAttribute o p "fill" (.color red)).rules = p.rules ∧ (setAttribute o p "fill" (.color red)).elems = p.elems := by
-    intro p; simp [setAttribute]
+    intro p; simp [setAttribute, attrCore, withSty, sty, attrCore, withSty, sty]
   constructor <;>
     simp [setStyling, applyRules, hr, he, h1, ruleApplies, selApplies, attempt, scan, scanList, SelNode.applies,
-      AttrSel.applies, setProps, setAttribute, applyPlain, applyStyle]
+      AttrSel.applies, setProps, setAttribute, attrCore, withSty, sty, applyPlain, applyStyle]
 
 theorem style_beats_rule (q : P α) (red blue lime : RGBA)
     (hr : q.rules = [⟨[[⟨false, "", [⟨2, "class", "a"⟩]⟩]], [("fill", .color blue)]⟩])
-    (he : q.elems = [⟨"rect", ["class"], "", ["a"]⟩]) :
+    (he : q.elems = [⟨"rect", ["class"], [("class", "a")], [("class", ["a"])]⟩]) :
     (setStyling o q [.style [("fill", .color lime)], .plain "fill" (.color red)]).ctx.fill = lime ∧
     (setStyling o q [.plain "fill" (.color red), .style [("fill", .color lime)]]).ctx.fill = lime := by
   constructor <;>
     simp [setStyling, applyRules, hr, he, ruleApplies, selApplies, attempt, scan, scanList, SelNode.applies,
-      AttrSel.applies, setProps, setAttribute, applyPlain, applyStyle]
+      AttrSel.applies, setProps, setAttribute, attrCore, withSty, sty, applyPlain, applyStyle]
 
 /-- the remaining recorded deviation (known finding C19-css-specificity): matching rules are applied in
 order of appearance, so a later type rule `rect {fill: blue}` overrides an earlier class rule
@@ -492,13 +625,52 @@ order of appearance, so a later type rule `rect {fill: blue}` overrides an earli
 theorem later_rule_wins (q : P α) (red blue : RGBA)
     (hr : q.rules = [⟨[[⟨false, "", [⟨2, "class", "k"⟩]⟩]], [("fill", .color red)]⟩,
                      ⟨[[⟨false, "rect", []⟩]], [("fill", .color blue)]⟩])
-    (he : q.elems = [⟨"rect", ["class"], "", ["k"]⟩]) :
+    (he : q.elems = [⟨"rect", ["class"], [("class", "k")], [("class", ["k"])]⟩]) :
     (setStyling o q []).ctx.fill = blue := by
   have h1 : ∀ (p : P α) (c : RGBA), (setAttribute o p "fill" (.color c)).elems = p.elems := by
-    intro p c; simp [setAttribute]
+    intro p c; simp [setAttribute, attrCore, withSty, sty, attrCore, withSty, sty]
   simp [setStyling, applyRules, hr, he, h1, ruleApplies, selApplies, attempt, scan, scanList, SelNode.applies,
-    AttrSel.applies, setProps, setAttribute]
+    AttrSel.applies, setProps, setAttribute, attrCore, withSty, sty, attrCore, withSty, sty]
 
 end Cascade
+
+/-! ## Non-vacuity: concrete instances of the hypotheses (over ℚ, Epsilon = 0) -/
+section NonVacuity
+@[instance_reducible] def envQ : Env ℚ := ⟨0, 0, 0, id, id, id, fun _ _ => 0, id, fun _ _ => 0, id, id, fun _ _ => 0, fun _ => false⟩
+attribute [local instance] envQ
+
+def cdId : ℚ → List ℚ → ℚ → List ℚ × Bool := fun _ l _ => (l, true)
+theorem epsQ : (Env.epsilon : ℚ) = 0 := rfl
+
+-- shape_rect / shape_circle / shape_ellipse / shape_line: a 30 x 40 rect, radii 5 and 3
+example : (0 : ℚ) ≤ Env.epsilon ∧ GenK.Equal (30 : ℚ) 0 = false ∧ GenK.Equal (40 : ℚ) 0 = false := by
+  refine ⟨le_refl _, ?_, ?_⟩ <;> simp [GenK.Equal, epsQ]
+example : (0 : ℚ) < 5 ∧ GenK.Equal (5 : ℚ) 0 = false ∧ GenK.Equal (5 : ℚ) 3 = false := by
+  refine ⟨by norm_num, ?_, ?_⟩ <;> simp [GenK.Equal, epsQ] <;> norm_num
+example : ptEquals (opsK cdId) (⟨1, 2⟩ : Pt ℚ) ⟨4, 6⟩ = false := by
+  simp [ptEquals, opsK, arithK, GenK.Equal, epsQ]
+-- shape_rounded_rect: <rect width="40" height="20" rx="4" ry="8"/>: W = 40·8/4 = 80
+example : GenK.Equal ((40 : ℚ) * 8 / 4) 0 = false ∧ GenK.Equal (8 : ℚ) ((40 : ℚ) * 8 / 4 - 8) = false ∧
+    GenK.Equal (8 : ℚ) (20 - 8) = false ∧ GenK.Equal ((20 : ℚ) - 8) 20 = false ∧ (4 : ℚ) ≤ 40 / 2 ∧ (8 : ℚ) ≤ 20 / 2 := by
+  refine ⟨?_, ?_, ?_, ?_, by norm_num, by norm_num⟩ <;> simp [GenK.Equal, epsQ] <;> norm_num
+-- shape_triangle: (0,0) (4,0) (0,3)
+example : Point.PerpDot (psub (⟨4, 0⟩ : Pt ℚ) ⟨0, 0⟩) (psub ⟨0, 3⟩ ⟨4, 0⟩) ≠ 0 := by
+  simp [Point.PerpDot, psub]
+-- dash_units: the default context with width 2 has a fill and a positive width; checkDash keeping the pattern exists
+example : hasFill ({ defaultCtx (opsK cdId) with sw := 2 } : CState ℚ) = true ∧
+    (∀ off l len, cdId off l len = (l, true)) := ⟨rfl, fun _ _ _ => rfl⟩
+-- aspect_meet_partial: 200 x 100 viewport, viewBox 0 0 100 50
+example : (200 : ℚ) / 100 = 100 / 50 := by norm_num
+-- cascade_refines_spec_partial: `rect {…}` before `.k {…}` on <rect class="k">: specificities 1 ≤ 1024
+example : (matching ([⟨[[⟨false, "rect", []⟩]], []⟩, ⟨[[⟨false, "", [⟨2, "class", "k"⟩]⟩]], []⟩] : List (Rule ℚ))
+      [⟨"rect", ["class"], [("class", "k")], [("class", ["k"])]⟩]).Pairwise (fun a b => a.1 ≤ b.1) := by
+  simp [matching, ruleSpec, ruleApplies, selApplies, attempt, scan, scanList, SelNode.applies, AttrSel.applies, specificity]
+-- miterlimit_sets_join: the default context joins with a miter
+example : (defaultCtx (opsK cdId) : CState ℚ).join = .miter 4 := by simp [defaultCtx, opsK, arithK]
+-- and the statement the importer still violates is not empty talk: the two cascades differ on `.k` before `rect`
+example : ¬ (matching ([⟨[[⟨false, "", [⟨2, "class", "k"⟩]⟩]], []⟩, ⟨[[⟨false, "rect", []⟩]], []⟩] : List (Rule ℚ))
+      [⟨"rect", ["class"], [("class", "k")], [("class", ["k"])]⟩]).Pairwise (fun a b => a.1 ≤ b.1) := by
+  simp [matching, ruleSpec, ruleApplies, selApplies, attempt, scan, scanList, SelNode.applies, AttrSel.applies, specificity]
+end NonVacuity
 
 end C19
